@@ -781,6 +781,103 @@ func main() {
 		}
 	}
 
+	// rbmutex.go: the facts mutual exclusion rests on
+	{
+		isHook := func(st ast.Stmt) bool {
+			es, ok := st.(*ast.ExprStmt)
+			if !ok {
+				return false
+			}
+			call, ok := es.X.(*ast.CallExpr)
+			return ok && exprString(call.Fun) == "verifYield"
+		}
+		strip := func(list []ast.Stmt) []ast.Stmt {
+			var out []ast.Stmt
+			for _, st := range list {
+				if !isHook(st) {
+					out = append(out, st)
+				}
+			}
+			return out
+		}
+		callName := func(e ast.Expr) string {
+			if call, ok := e.(*ast.CallExpr); ok {
+				return exprString(call.Fun)
+			}
+			return ""
+		}
+		condLoadsBias := func(e ast.Expr) bool {
+			found := false
+			ast.Inspect(e, func(m ast.Node) bool {
+				if call, ok := m.(*ast.CallExpr); ok && exprString(call.Fun) == "atomic.LoadInt32" && len(call.Args) == 1 && exprString(call.Args[0]) == "mu.rbias" {
+					found = true
+				}
+				return true
+			})
+			return found
+		}
+		lockFirst, clearFirst, recheck, rollback := false, false, false, false
+		var scanFrom int64 = -1
+		scanAll := false
+		if fd := findFunc(internal, "Lock"); fd != nil && fd.Recv != nil {
+			body := strip(fd.Body.List)
+			if len(body) > 0 {
+				if es, ok := body[0].(*ast.ExprStmt); ok && callName(es.X) == "mu.rw.Lock" {
+					lockFirst = true
+				}
+			}
+			for _, st := range body {
+				ifs, ok := st.(*ast.IfStmt)
+				if !ok || !condLoadsBias(ifs.Cond) {
+					continue
+				}
+				stored := false
+				for _, in := range strip(ifs.Body.List) {
+					if es, ok := in.(*ast.ExprStmt); ok && callName(es.X) == "atomic.StoreInt32" {
+						stored = true
+					}
+					if fs, ok := in.(*ast.ForStmt); ok {
+						clearFirst = stored
+						if as, ok := fs.Init.(*ast.AssignStmt); ok && len(as.Rhs) == 1 {
+							if v, ok := evalConst(as.Rhs[0], consts); ok {
+								scanFrom, _ = constant.Int64Val(v)
+							}
+						}
+						if be, ok := fs.Cond.(*ast.BinaryExpr); ok && be.Op == token.LSS && callName(be.Y) == "len" {
+							scanAll = true
+						}
+					}
+				}
+			}
+		} else {
+			fail("RBMutex.Lock not found")
+		}
+		if fd := findFunc(internal, "fastRlock"); fd != nil {
+			ast.Inspect(fd.Body, func(m ast.Node) bool {
+				ifs, ok := m.(*ast.IfStmt)
+				if !ok || callName(ifs.Cond) != "atomic.CompareAndSwapInt32" {
+					return true
+				}
+				body := strip(ifs.Body.List)
+				if len(body) > 0 {
+					if inner, ok := body[0].(*ast.IfStmt); ok && condLoadsBias(inner.Cond) {
+						recheck = true
+					}
+				}
+				for _, st := range body {
+					if es, ok := st.(*ast.ExprStmt); ok && callName(es.X) == "atomic.AddInt32" {
+						rollback = true
+					}
+				}
+				return false
+			})
+		} else {
+			fail("fastRlock not found")
+		}
+		fmt.Fprintf(&cb, "(* rbmutex.go: Lock takes rw first; clears the bias before scanning the slots; the scan starts at this slot and runs to len(rslots); fastRlock re-checks the bias after its CAS and rolls the slot back *)\nDefinition c_rb_shape : bool * bool * Z * bool * bool * bool := (%v, %v, %d, %v, %v, %v).\n", lockFirst, clearFirst, scanFrom, scanAll, recheck, rollback)
+		rep.Consts = append(rep.Consts, "rb_shape")
+	}
+
 	consV := cb.String()
 	if wheelInKernels {
 		// the spans table calls g_next2Power: put it after the kernels
